@@ -1,6 +1,7 @@
 """Configuration of ./check C15 (see pylib/props.py)."""
 CFG = dict(
-        coq=["props/C15.vo"],
+        coq=["props/C15.vo", "props/Compose3.vo"],
+        compose=['Compose_refsql_crash', 'Compose_refsql_setwithlog', 'Compose_refsql_txlog', 'Compose_refsql_prune'],
         tie=["gen/Tie_C15.vo"],
         model_vo=["model/RefStore.vo", "model/Like.vo", "model/RefSql.vo", "gen/Extracted.vo"],
         extract="Ex_C15",
